@@ -16,12 +16,15 @@ use std::sync::{atomic::{AtomicU32, Ordering::SeqCst}, Arc};
 #[derive(Clone, Debug)]
 pub struct Cfg {
     pub kind: Kind, pub n: usize, pub m: usize, pub streams: usize, pub entries: Vec<Entry>, pub per_prod: u32, pub retries: u32, pub hold: Hold, pub droppy: bool,
+    /// FREE lane: per stream, (after the k-th yield, ms away)
+    pub stalls: Vec<Vec<(u32, u32)>>,
 }
 impl Cfg {
     pub fn json(&self) -> J {
         J::obj().with("kind", J::s(self.kind.name())).with("N", J::i(self.n as i64)).with("M", J::i(self.m as i64)).with("streams", J::i(self.streams as i64))
             .with("producers", J::Arr(self.entries.iter().map(|e| J::s(e.name())).collect())).with("events_per_producer", J::i(self.per_prod as i64))
             .with("retries", J::i(self.retries as i64)).with("hold", J::s(format!("{:?}", self.hold))).with("droppy", J::Bool(self.droppy))
+            .with("consumer_stalls_ms", J::Arr(self.stalls.iter().map(|v| J::Arr(v.iter().map(|(k, ms)| J::s(format!("after yield {k}: {ms} ms"))).collect())).collect()))
     }
 }
 
@@ -48,7 +51,13 @@ pub fn draw_cfg(rng: &mut Rng, only: Option<&str>, lane: Lane) -> Cfg {
     }
     let entries: Vec<Entry> = (0..nprod).map(|_| *rng.pick(&es)).collect();
     let hold = if lane == Lane::Ser && rng.chance(1, 4) { Hold::Keep } else { Hold::Release };
-    Cfg { kind, n, m, streams, entries, per_prod, retries: rng.below(4) as u32, hold, droppy }
+    // a consumer that is away for 12-40 ms once or twice (free-running lane, 1 run in 6): the buffer stays full for a while, so producers meet
+    // sustained back-pressure (rejections; on the crossbeam channel the setter-based sends wait past their fullness test)
+    let mut stalls: Vec<Vec<(u32, u32)>> = vec![Vec::new(); streams];
+    if lane == Lane::Free && rng.chance(1, 6) {
+        for st in stalls.iter_mut() { for _ in 0..1 + rng.below(2) { st.push((1 + rng.below((per_prod as u64 * nprod as u64 / streams as u64).max(2)) as u32, 12 + rng.below(29) as u32)) } }
+    }
+    Cfg { kind, n, m, streams, entries, per_prod, retries: rng.below(4) as u32, hold, droppy, stalls }
 }
 
 pub fn one_run(cfg: &Cfg, rc: &RunCfg, acc: &mut Acc) -> (Option<J>, u64, bool, bool) {
@@ -58,6 +67,8 @@ pub fn one_run(cfg: &Cfg, rc: &RunCfg, acc: &mut Acc) -> (Option<J>, u64, bool, 
     let mut strms: Vec<_> = (0..cfg.streams).map(|_| ch.create_stream()).collect();
     if rc.lane == Lane::Free { for s in strms.iter_mut() { crate::drive::preregister_noop(s) } }
     let clogs: Vec<Arc<ConsLog>> = (0..cfg.streams).map(|_| Arc::new(ConsLog::default())).collect();
+    for (l, st) in clogs.iter().zip(cfg.stalls.iter()) { *l.stalls.lock().unwrap() = st.clone() }
+    if cfg.stalls.iter().any(|s| !s.is_empty()) { acc.count("runs_with_a_consumer_staying_away_12_to_40_ms", 1) }
     let plogs: Vec<Arc<ProdLog>> = cfg.entries.iter().map(|_| Arc::new(ProdLog::default())).collect();
     let done = Arc::new(AtomicU32::new(0));
     let nprod = cfg.entries.len() as u32;
